@@ -123,6 +123,7 @@ func vOneShotExec2(ops [][]int64) ([][]int64, bool, []string) {
 	e := grpcsync.NewEvent()
 	var obs [][]int64
 	fires := 0
+	stressed := false
 	for _, op := range ops {
 		switch {
 		case len(op) == 1 && op[0] == 1:
@@ -137,11 +138,46 @@ func vOneShotExec2(ops [][]int64) ([][]int64, bool, []string) {
 			default:
 				obs = append(obs, []int64{0})
 			}
+		case len(op) == 3 && op[0] == 4 && op[1] >= 0 && op[2] >= 1 && op[2] <= 64:
+			// stress: fresh Event per round, g goroutines released together, exactly one true
+			bad := int64(0)
+			g := int(op[2])
+			res := make([]bool, g)
+			for round := int64(0); round < op[1]; round++ {
+				ev := grpcsync.NewEvent()
+				start := make(chan struct{})
+				var wg sync.WaitGroup
+				wg.Add(g)
+				for i := 0; i < g; i++ {
+					go func(i int) {
+						defer wg.Done()
+						<-start
+						res[i] = ev.Fire()
+					}(i)
+				}
+				close(start)
+				wg.Wait()
+				cnt := 0
+				for i := 0; i < g; i++ {
+					if res[i] {
+						cnt++
+					}
+				}
+				if cnt != 1 {
+					bad++
+				}
+			}
+			stressed = true
+			obs = append(obs, []int64{bad})
 		default:
 			obs = append(obs, []int64{-1})
 		}
 	}
-	return obs, fires >= 2, []string{"event"}
+	tags := []string{"event"}
+	if stressed {
+		tags = append(tags, "event-stress")
+	}
+	return obs, fires >= 2 || stressed, tags
 }
 
 func vOneShotExec3(ops [][]int64) ([][]int64, bool, []string) {
@@ -174,6 +210,48 @@ func vOneShotExec4(ops [][]int64) ([][]int64, bool, []string) {
 	var obs [][]int64
 	hits := 0
 	for _, op := range ops {
+		if len(op) == 3 && op[0] == 2 && op[1] >= 0 {
+			// Clear(r) in place of Remove
+			n := int(op[1])
+			if n > 8 {
+				n = 8
+			}
+			run := op[2] != 0
+			notOnce, ranAfterClear := int64(0), 0
+			for i := 0; i < n; i++ {
+				c := cache.NewTimeoutCache(3 * time.Millisecond)
+				mu := (*sync.Mutex)(unsafe.Pointer(reflect.ValueOf(c).Elem().FieldByName("mu").UnsafeAddr()))
+				var cbs atomic.Int32
+				c.Add(1, 1, func() { cbs.Add(1) })
+				mu.Lock()
+				started := make(chan struct{})
+				done := make(chan struct{})
+				go func() {
+					close(started)
+					c.Clear(run)
+					close(done)
+				}()
+				<-started
+				time.Sleep(8 * time.Millisecond) // Clear is queued on mu; the timer fires and queues behind it
+				mu.Unlock()
+				<-done
+				time.Sleep(3 * time.Millisecond)
+				k := cbs.Load()
+				if run && k != 1 {
+					notOnce++
+				}
+				if !run && k != 0 {
+					ranAfterClear++
+				}
+				hits++
+			}
+			v2 := int64(0)
+			if 2*ranAfterClear > n {
+				v2 = 1
+			}
+			obs = append(obs, []int64{notOnce, v2})
+			continue
+		}
 		if len(op) != 2 || op[0] != 1 || op[1] < 0 {
 			obs = append(obs, []int64{-1})
 			continue
@@ -235,7 +313,14 @@ func vOneShotExec(cfg []int64, ops [][]int64) ([][]int64, bool, []string) {
 func vOneShotGen(r *vRand, tier string, idx int) ([]int64, [][]int64) {
 	var ops [][]int64
 	if idx == 1 || (idx > 4 && idx%40 == 1) {
-		return []int64{4}, [][]int64{{1, 5}}
+		return []int64{4}, [][]int64{{1, 5}, {2, 5, 0}, {2, 5, 1}}
+	}
+	if idx == 2 || (idx > 4 && idx%40 == 2) {
+		rounds := int64(30000)
+		if tier == "thorough" {
+			rounds = 60000
+		}
+		return []int64{2}, [][]int64{{1}, {4, rounds, 8}, {2}, {4, rounds / 4, 2}, {1}}
 	}
 	switch {
 	case idx%4 == 2:
@@ -244,7 +329,7 @@ func vOneShotGen(r *vRand, tier string, idx int) ([]int64, [][]int64) {
 		for i := 0; i < n; i++ {
 			ops = append(ops, []int64{int64(1 + r.Intn(3))})
 		}
-		if idx == 2 {
+		if idx == 6 {
 			ops = [][]int64{{2}, {3}, {1}, {2}, {3}, {1}, {1}, {2}, {3}}
 		}
 		return []int64{2}, ops
